@@ -164,6 +164,10 @@ def call_rule(built: Built, cfg):
         init = cfg["init_obj"]  # a caller-owned BudgetAllocation object, possibly shared between several calls
         # an empty collection is falsy: "init_obj_pass_empty" hands the caller's object over even when it is (still) empty
         pass_init = bool(init) or bool(cfg.get("init_obj_pass_empty"))
+    elif pass_init:
+        # every argument type a caller may use for a collection of projects, one-shot iterables included (round 7: a test placed
+        # before the rule copies its argument consumes a generator); the kind is a function of the case, or given by the stream
+        init = core.shape_init(init, cfg.get("init_type") or core.pick_init_type(case.seed, len(init)))
     res = cfg.get("res", True)
     rule = cfg["rule"]
     if rule == "mes":
